@@ -59,6 +59,7 @@ class SimChannel:
         self.log = []               # every Frame put on the wire
         self.n = 0
         self.live_tasks = []        # SimCyclicTask registry (C17)
+        self.thread_tasks = []      # ThreadTaskView of real python-can thread tasks (C17, Mode T flavour)
         self.all_tasks = []
         self.inline_mode = False    # deliver inside send() to other networks
         self.monitors = []          # callables(frame) run when a frame hits the wire
@@ -199,6 +200,23 @@ class SimCyclicTask(can.broadcastmanager.CyclicSendTaskABC):
         return (cid, data, self.period, rtr)
 
 
+class ThreadTaskView:
+    """Registry view of one real ThreadBasedCyclicSendTask: it counts as live while
+    it has not been stopped (its thread sends nothing more once `stopped` is set)."""
+
+    def __init__(self, bus, task, tid):
+        self.bus = bus
+        self.task = task
+        self.tid = tid
+
+    def alive(self):
+        return not self.task.stopped
+
+    def describe(self):
+        m = self.task.messages[0]
+        return (m.arbitration_id, bytes(m.data), self.task.period, bool(m.is_remote_frame))
+
+
 class SimModifiableCyclicTask(SimCyclicTask):
     def modify_data(self, messages):
         if isinstance(messages, can.Message):
@@ -274,16 +292,30 @@ class SimBus(Endpoint, can.BusABC):
                 ctx.wait_until(lambda: False, ahead, "bus.send")
             else:
                 ctx.now = ahead
-        ch.transmit(self, msg.arbitration_id, bytes(msg.data), msg.is_remote_frame,
-                    msg.is_extended_id)
+        fr = ch.transmit(self, msg.arbitration_id, bytes(msg.data), msg.is_remote_frame,
+                         msg.is_extended_id)
         if ctx.threaded:
+            cur = ctx.current
+            if cur is not None and cur.label.startswith("Cyclic send task"):
+                fr.origin = ("periodic", cur.name)
             ctx.tick(US)
 
     def _recv_internal(self, timeout):
         raise HarnessError("SimBus.recv is not used (no can.Notifier in simulation)")
 
+    real_thread_tasks = False       # True: python-can's own ThreadBasedCyclicSendTask (real code, Mode T only)
+
     def _send_periodic_internal(self, msgs, period, duration=None, autostart=True,
                                 modifier_callback=None):
+        if self.real_thread_tasks:
+            task = can.BusABC._send_periodic_internal(self, msgs, period, duration, autostart, modifier_callback)
+            ch = self.channel_obj
+            ad = ThreadTaskView(self, task, len(ch.all_tasks) + 1)
+            ch.all_tasks.append(ad)
+            ch.thread_tasks.append(ad)
+            ch.ctx.log("task-start", self.name, ad.tid, task.messages[0].arbitration_id, bytes(task.messages[0].data), period,
+                       task.messages[0].is_remote_frame)
+            return task
         if isinstance(msgs, can.Message):
             msgs = [msgs]
         cls = SimModifiableCyclicTask if self.modifiable_tasks else SimCyclicTask
